@@ -62,6 +62,38 @@ def c20_crossbuild(pid, tier, seed, st, log, env):
                                        f"default and purego builds differ on {a.case.lines[k]}"))
             break
     info["coverage"]["transcript_lines_both_builds"] = nlines
+    # (c) Go assembly may select code by micro-architecture level (#ifdef GOAMD64_v2/v3/v4): the same transcript under a GOAMD64=v3
+    # build of the default configuration (skipped when this machine cannot run v3 binaries)
+    try:
+        flags = open("/proc/cpuinfo").read()
+    except OSError:
+        flags = ""
+    if ok and all(f in flags for f in ("avx2", "bmi2", "fma", "movbe")):
+        exe3 = os.path.join(BUILD, "edgo_v3")
+        stamp = exe3 + ".tree"
+        built = True
+        if not os.path.exists(exe3) or not os.path.exists(stamp) or open(stamp).read() != st.get("tree_hash", ""):
+            if os.path.exists(exe3):
+                os.remove(exe3)
+            rc, out, dt = env["sh"](["go", "build", "-tags", "verif", "-overlay", os.path.join(BUILD, "overlay.json"), "-o", exe3, "./cmd/edgo"],
+                                    cwd=os.path.join(env["ROOT"], "harness"), env=dict(env["GOENV"], GOAMD64="v3"))
+            log(f"build edgo_v3 (GOAMD64=v3) rc={rc} {dt:.1f}s")
+            built = rc == 0
+            if built:
+                open(stamp, "w").write(st.get("tree_hash", ""))
+        if built:
+            r3, crash3 = engine.run_cases(progs, exe3, None, want_model=False)
+            info["coverage"]["transcript_lines_goamd64_v3"] = nlines
+            for a, b in zip(r3, r2):
+                if a.go != b.go:
+                    ok = False
+                    k = next((i for i in range(len(b.go)) if i >= len(a.go) or a.go[i] != b.go[i]), 0)
+                    info["violations"].append(("failing-input", _replay(env, pid, b.case.lines[:k + 1],
+                                               f"GOAMD64=v3 build of the default configuration: {(a.go[k][:300] if k < len(a.go) else 'no output (crash)')} / purego build: {b.go[k][:300]}"),
+                                               f"GOAMD64=v3 and purego builds differ on {b.case.lines[k]}"))
+                    break
+        else:
+            info["coverage"]["goamd64_v3"] = "build unavailable"
     return ok, info
 
 
